@@ -369,22 +369,25 @@ Definition vsub (a b : val) : val :=       (* b - a *)
 Definition pair_f (h : val -> val -> val) (p : val) : val :=
   match p with VPair a b => h a b | _ => VErr end.
 
-Definition lagged (h : val -> val -> val) (zero : val) (n : Z) (value : val) (xs : list val) : res it :=
+(* the `_` arm (n <= 0, lag 0 included since 18f1208 / a1124e7) shared by vdiff and vpct_change:
+   titer().skip(n_abs).zip(titer()).map(h).chain(repeat_n(value, n_abs)).to_trust(len) *)
+Definition lag_nonpos (h : val -> val -> val) (na : nat) (value : val) (xs : list val) : it :=
+  IBox (ITrust (IChain true true
+                  (IMap (pair_f h) (IZip (ISkip (IList xs) na) (IList xs)))
+                  (IRepeatN value na)) (length xs)).
+
+(* vdiff (repaired by bf86c60 and 18f1208): for n > 0 the fill values come first, as they are:
+   repeat_n(value, n_abs).chain(titer().take(len - n_abs).zip(titer().skip(n_abs)).map(|(a, b)| b - a)) *)
+Definition vdiff (n : Z) (value : option val) (xs : list val) : res it :=
+  let value := match value with Some v => v | None => VNull end in
   let len := length xs in
   if len_le_nabs len n then Ok (IBox (IRepeatN value len))
   else let na := n_abs n in
   if (0 <? n)%Z then
     do k <- usub len na;
-    Ok (IBox (ITrust (IMap (pair_f h)
-                       (IZip (IChain true true (IRepeatN value na) (ITake (IList xs) k)) (IList xs))) len))
-  else if (n <? 0)%Z then
-    Ok (IBox (ITrust (IChain true true
-                       (IMap (pair_f h) (IZip (ISkip (IList xs) na) (IList xs)))
-                       (IRepeatN value na)) len))
-  else Ok (IBox (ITrust (IRepeatN zero len) len)).
-
-Definition vdiff (n : Z) (value : option val) (xs : list val) : res it :=
-  lagged vsub (VZ 0) n (match value with Some v => v | None => VNull end) xs.
+    Ok (IBox (ITrust (IChain true true (IRepeatN value na)
+                        (IMap (pair_f vsub) (IZip (ITake (IList xs) k) (ISkip (IList xs) na)))) len))
+  else Ok (lag_nonpos vsub na value xs).
 
 (* vec_map.rs:60-100 vpct_change: only the null pattern of the quotient is modelled (VZ 1 = a number) *)
 Definition vpct (a b : val) : val :=
@@ -392,7 +395,16 @@ Definition vpct (a b : val) : val :=
   | VZ x, VZ y => if (x =? 0)%Z then VNull else VZ 1
   | _, _ => VNull
   end.
-Definition vpct_change (n : Z) (xs : list val) : res it := lagged vpct (VZ 0) n VNull xs.
+(* n > 0: repeat_n(NaN, n_abs).chain(titer().take(len - n_abs).map(cast)).zip(titer()).map(..) (unchanged) *)
+Definition vpct_change (n : Z) (xs : list val) : res it :=
+  let len := length xs in
+  if len_le_nabs len n then Ok (IBox (IRepeatN VNull len))
+  else let na := n_abs n in
+  if (0 <? n)%Z then
+    do k <- usub len na;
+    Ok (IBox (ITrust (IMap (pair_f vpct)
+                       (IZip (IChain true true (IRepeatN VNull na) (ITake (IList xs) k)) (IList xs))) len))
+  else Ok (lag_nonpos vpct na VNull xs).
 
 (* vec_map.rs:280-406 partitions: which TrustIter length wraps which iterator.  The ORDER of the
    yielded values (selection / sort) belongs to property C12; here the content is the input order. *)
@@ -403,7 +415,7 @@ Definition vpartition (kth : nat) (sort : bool) (xs : list val) : it :=
   if andb (n =? kth + 1) (negb sort) then IBox (ITrust (IList (filter not_none xs)) (kth + 1))
   else if n <=? kth + 1 then
     if negb sort then IBox (ITrust (IPad true (IList (filter not_none xs)) VNull (kth + 1)) (kth + 1))
-    else IBox (ITake (IList xs) (kth + 1))
+    else IBox (ITrust (IPad true (IList xs) VNull (kth + 1)) (kth + 1))   (* 139b672: padded like the unsorted arm *)
   else IBox (ITrust (IList (firstn (kth + 1) xs)) (kth + 1)).
 
 Definition idx_valid (xs : list val) : list val :=
@@ -443,18 +455,18 @@ Definition opt_view (xs : list val) : it := IMap (fun v => v) (IList xs).
    `linspace`: step = (b - a) / (n - 1) (truncating for integers) when n > 1, else 0. *)
 Definition linspace (a b : Z) (n : nat) : it :=
   ILin a (if 1 <? n then Z.quot (b - a) (Z.of_nat (n - 1)) else 0%Z) 0 n.
-(* `range` over a float type: len = ceil((b - a) / step) cast to usize (saturating at 0) *)
-Definition range_f (a b stp : Z) : it :=
-  let q := (if (stp =? 0)%Z then 0 else
-            let d := (b - a)%Z in
-            if (0 <? d * stp)%Z then (Z.abs d + Z.abs stp - 1) / Z.abs stp else 0)%Z in
-  ILin a stp 0 (Z.to_nat q).
-(* `range` over an integer type: ceil is the identity, len = (b - a) / step (truncating) as usize;
-   a negative quotient wraps to a huge usize (defect #22, property C19): Panic here *)
+(* `range` (repaired by e1a8736): empty when nothing lies strictly before `b` in the direction of the
+   step, else ceil of the exact quotient (b - a) / step (both have the sign of the step there) *)
+Definition range_empty (a b stp : Z) : bool := if (0 <? stp)%Z then (b <=? a)%Z else (a <=? b)%Z.
+Definition range_count (a b stp : Z) : nat :=
+  if range_empty a b stp then 0
+  else if (stp =? 0)%Z then 0      (* floats: ceil(-inf) + 1 cast to usize saturates at 0 *)
+  else Z.to_nat ((Z.abs (b - a) + Z.abs stp - 1) / Z.abs stp).
+Definition range_f (a b stp : Z) : it := ILin a stp 0 (range_count a b stp).
+(* integer element types: step = 0 with a non-empty direction divides by zero *)
 Definition range_i (a b stp : Z) : res it :=
-  if (stp =? 0)%Z then Panic OtherPanic
-  else let q := Z.quot (b - a) stp in
-       if (q <? 0)%Z then Panic OtherPanic else Ok (ILin a stp 0 (Z.to_nat q)).
+  if andb (negb (range_empty a b stp)) (stp =? 0)%Z then Panic OtherPanic
+  else Ok (ILin a stp 0 (range_count a b stp)).
 
 (* Vec1Create::{range, linspace}: collect_from_trusted(lin.map(T::from_inner)) *)
 Definition create (s : it) : coutcome := collect_raw (IMap (fun v => v) s).
